@@ -420,7 +420,18 @@ qb_rb_chunk_alloc(struct qb_ringbuffer_s * rb, size_t len)
 	 */
 	if (rb->flags & QB_RB_FLAG_OVERWRITE) {
 		while (qb_rb_space_free(rb) < (len + QB_RB_CHUNK_MARGIN)) {
-			int rc = _rb_chunk_reclaim(rb);
+			int rc;
+
+			if (rb->shared_hdr->read_pt == rb->shared_hdr->write_pt) {
+				/*
+				 * we have dropped every chunk: the buffer is
+				 * empty even though the notifier still counts
+				 * the dropped chunks (which makes
+				 * qb_rb_space_free() report it as full).
+				 */
+				break;
+			}
+			rc = _rb_chunk_reclaim(rb);
 			if (rc != 0) {
 				return NULL;  /* errno already set */
 			}
